@@ -487,7 +487,15 @@ func c10JudgeFlood(cs *c10Case, obs *c10Obs, st *c10Stats) []c10Finding {
 		// when protection is switched on, so only what holds for any starting
 		// penalty is demanded: a hold is zero or the line's own charge, and
 		// the window bound over the protected suffix.
+		// Unless a line issued before the flip was dequeued at its very instant (a
+		// tie, where the flag may have been read either way), the penalty at the
+		// moment protection is switched on is known: lines written while Flood was
+		// set were never charged, and the penalty - zero since the client was
+		// created - has been decaying in real time all along. From there on the
+		// write times follow the model exactly.
 		first := -1
+		m := c10Model{}
+		exact := true
 		for k := range in {
 			st.Lines++
 			a := deq(k)
@@ -496,6 +504,16 @@ func c10JudgeFlood(cs *c10Case, obs *c10Obs, st *c10Stats) []c10Finding {
 			case user >= cs.Toggle:
 				if first < 0 {
 					first = k
+				}
+				if exact {
+					hold := m.Account(a, in[k].N)
+					if hold > 0 {
+						st.Held++
+					}
+					if obs.At[k] != a+hold {
+						return fail("write-time-after-switch-on", fmt.Sprintf("line %d (protection switched on at %v): written at %v, model says %v (dequeued %v, penalty %v, hold %v); lines sent while Flood was set are not charged and the penalty keeps decaying in real time", k, time.Duration(obs.FlipAt), time.Duration(obs.At[k]), time.Duration(a+hold), time.Duration(a), time.Duration(m.B), time.Duration(hold)))
+					}
+					continue
 				}
 				L := c10Charge(in[k].N)
 				if obs.At[k] != a && obs.At[k] != a+L {
@@ -508,6 +526,7 @@ func c10JudgeFlood(cs *c10Case, obs *c10Obs, st *c10Stats) []c10Finding {
 			default:
 				// issued before the flip, dequeued at its instant or later: either
 				// reading; not part of the protected suffix for the window bound
+				exact = false
 				L := c10Charge(in[k].N)
 				if obs.At[k] != a && obs.At[k] != a+L {
 					return fail("hold-not-own-charge", fmt.Sprintf("line %d dequeued at %v was written at %v: neither at once nor after its own charge %v", k, time.Duration(a), time.Duration(obs.At[k]), time.Duration(L)))
